@@ -177,6 +177,9 @@ func equals(t types.Type, x, y value) bool {
 
 // load returns the value of type T in *addr.
 func load(T types.Type, addr *value) value {
+	if no, ok := (*addr).(nativeObj); ok {
+		return no // opaque engine object standing for a stdlib struct value
+	}
 	switch T := T.Underlying().(type) {
 	case *types.Struct:
 		v := (*addr).(structure)
@@ -199,6 +202,10 @@ func load(T types.Type, addr *value) value {
 
 // store stores value v of type T into *addr.
 func store(T types.Type, addr *value, v value) {
+	if _, ok := v.(nativeObj); ok {
+		*addr = v
+		return
+	}
 	switch T := T.Underlying().(type) {
 	case *types.Struct:
 		lhs := (*addr).(structure)
